@@ -787,7 +787,9 @@ impl<'arena> PrettyFormatter<'arena> {
             ));
         // A blank line between the type and the bindee belongs before the
         // separator, so it excludes the attached form.
-        let attachable = !matches!(intent.resolve(self.arena), Some(BreakIntent::BlankLine));
+        // (Only where the policy keeps it: a blank line that is dropped anyway
+        // would exclude the attached form on this pass and not on the next.)
+        let attachable = !self.preserves_blank_line(intent.resolve(self.arena));
         let attached = if attachable {
             ty.document
                 .clone()
